@@ -622,8 +622,12 @@ def canon_real(r):
             'off': str(r['off']), 'tr': ','.join(r['trace']) or '-'}
 
 
-def canon_model(ans, pins):
+def canon_model(ans, pins, prefix=''):
+    """prefix='' : the hand model Conc; prefix='x': the translated small-step system ConcX (same answer line)"""
     f = dict(w.split('=', 1) for w in ans.split(' '))
+    if prefix:
+        f = dict((k[len(prefix):], v) for k, v in f.items() if k.startswith(prefix))
+        f.setdefault('stale', '-')
     num = Numbering()
     for o in pins:
         num(o)
@@ -987,6 +991,18 @@ class Runner:
             ctx.compare('access trace: model = real cache.py', case, cm['tr'], cr['tr'])
             ctx.compare('cull counters: model = real', case, 'cc=%s off=%s' % (cm['cc'], cm['off']),
                         'cc=%s off=%s' % (cr['cc'], cr['off']))
+            # the TRANSLATED system (small-step semantics of the programs extracted from cache.py on this run,
+            # interleaved by Model/ConcX.lean), run by the same driver on the same schedule
+            try:
+                cx = canon_model(ans, npinned, prefix='x')
+                cx['tr']
+            except Exception:
+                cx = dict((k, 'unreadable answer: ' + ans[:200]) for k in ('outs', 'lock', 'strong', 'weak', 'unfinished',
+                                                                          'cc', 'off', 'tr'))
+            ctx.compare('access trace: translated small-step system = real cache.py', case, cx['tr'], cr['tr'])
+            ctx.compare('outcomes+final state+cull counters: translated small-step system = real cache.py', case,
+                        ' '.join('%s=%s' % (k, cx[k]) for k in state + ('cc', 'off')),
+                        ' '.join('%s=%s' % (k, cr[k]) for k in state + ('cc', 'off')))
 
 
 def run(ctx):
